@@ -146,6 +146,8 @@ def run(ctx):
                   'the tasks recorded as having triggered it', 'DT + AGREE')
     from mstatic.rules import cmdcalc
     cmdcalc.triggered_by_ids(ctx, r9)
+    from mstatic.rules import shared as _sh
+    _sh.inbound_before_publish(ctx, r9)
 
 
 def _run(ctx):
